@@ -8,8 +8,10 @@ VERIF = os.path.dirname(os.path.dirname(os.path.abspath(__file__)))
 def load_checks():
     d = {}
     pd = os.path.join(VERIF, "lib", "props")
+    # only checks that have been reviewed and pass on the unchanged tree are claimed
+    enabled = set(open(os.path.join(pd, "ENABLED")).read().split())
     for f in sorted(os.listdir(pd)):
-        if re.match(r"C\d+\.json$", f):
+        if re.match(r"C\d+\.json$", f) and f[:-5] in enabled:
             d[f[:-5]] = json.load(open(os.path.join(pd, f)))
     return d
 
